@@ -29,6 +29,7 @@ def run(ck):
     ck.rule("C12.R2", "collector gone / lock poisoned => Err and the closure is not run", floor=1)
     ck.rule("C12.R3", "reload::Subscriber methods lock per call; no field caches the inner value", floor=20)
     ck.rule("C12.R4", "the rebuild covers every callsite and the max level", floor=2)
+    ck.rule("C12.R8", "a filter edited in place by modify keeps its cached max level an upper bound (DirectiveSet::add, as C08.R4): the rebuild publishes that hint", floor=1)
     ck.rule("C12.R7", "what a reload swaps in is what the stack consults: Layered re-derives a None layer's hint from the live value (as C08.R7)", floor=1)
     ck.rule("C12.R6", "the rebuild reaches every registered callsite: the lock-free list never loses a node (as C04.R3)", floor=5)
     ck.rule("C12.R5", "a first-hit registration is serialised with the rebuild (registry critical sections, as C04.R1)", floor=3)
@@ -50,6 +51,7 @@ def run(ck):
             # construction-time snapshot of the layer it wraps (Some -> None reloads)
             from rules import C08
             C08.r7(ck, F, rid="C12.R7")
+            C08.directive_add_rule(ck, Facts("release"), rid="C12.R8")
     ck.tag = ""
 
 
